@@ -157,8 +157,8 @@ func Explain(program *analysis.ProgramInfo, store factstore.ReadOnlyFactStore, g
 		program: program,
 		store:   store,
 		opts:    opts,
-		cache:   make(map[uint64][]*ProofNode),
-		onStack: make(map[uint64]bool),
+		cache:   make(map[string][]*ProofNode),
+		onStack: make(map[string]bool),
 		ruleIDs: make(map[int]string),
 	}
 	proofs := e.explain(goal, 0)
@@ -172,11 +172,11 @@ type explainer struct {
 	program *analysis.ProgramInfo
 	store   factstore.ReadOnlyFactStore
 	opts    Options
-	// cache memoizes proofs per ground goal hash. Avoids recomputing proofs
+	// cache memoizes proofs per ground goal (keyed by its printed form). Avoids recomputing proofs
 	// of facts that appear as premises in multiple parent proofs.
-	cache map[uint64][]*ProofNode
+	cache map[string][]*ProofNode
 	// onStack tracks goals currently being proved to break cycles.
-	onStack map[uint64]bool
+	onStack map[string]bool
 	// ruleIDs memoizes content-addressed rule IDs keyed by index in program.Rules.
 	ruleIDs map[int]string
 	// initialFacts indexes program.InitialFacts by hash; built on first use.
@@ -187,7 +187,8 @@ func (e *explainer) explain(goal ast.Atom, depth int) []*ProofNode {
 	if depth > e.opts.MaxDepth {
 		return []*ProofNode{{Fact: goal, Partial: true, ID: partialID(goal)}}
 	}
-	h := goal.Hash()
+	// Goals are told apart by their printed form: different atoms can have equal hashes.
+	h := goal.String()
 	if cached, ok := e.cache[h]; ok {
 		return cached
 	}
